@@ -185,7 +185,7 @@ class World:
 
 
 def caller_unit(M, n_callers, depth, limits, with_unsolicited):
-    events = ["start-next", "answer", "event", "read-all", "read-partial", "peer-close", "peer-eof", "loop-delivers-loss"]
+    events = ["start-next", "answer", "event", "read-all", "read-partial", "peer-close", "peer-eof", "controller-drops-connection", "loop-delivers-loss"]
     events += ["cancel-%d" % k for k in range(n_callers)] + ["timeout-%d" % k for k in range(n_callers)]
     if with_unsolicited:
         events.append("unsolicited-response")
@@ -263,6 +263,12 @@ def caller_unit(M, n_callers, depth, limits, with_unsolicited):
                 if not keep_open:
                     W.tr.closed = True
                 ex.tag("peer-close")
+            elif ev == "controller-drops-connection":
+                # close() / a failed re-verification drop the transport (and forget it) while requests may still be outstanding
+                ex.assume(not W.tr.closed and W.conn.transport is W.tr)
+                W.wire = b""
+                W.conn._drop_transport()
+                ex.tag("controller-drop")
             elif ev == "loop-delivers-loss":
                 ex.assume(W.tr.closed and not W.lost)
                 W.deliver_loss(None)
@@ -349,7 +355,12 @@ def build(tier, mutate=None):
                           bounds={"callers": n, "events": depth, "concurrency limit": limits, "reads": "all pending bytes, or a prefix cut at 1 / 17 / half / all-but-one",
                                   "unsolicited response": "with nothing outstanding" if uns else "not in this unit",
                                   "wake-ups": "at once (either order), or after the next callback"},
-                          regions=["answered", "http-error", "cancelled", "timeout", "peer-close"] + (["unsolicited"] if uns else []), diff_sample=400, max_paths=3000000))
+                          regions=["answered", "http-error", "cancelled", "timeout", "peer-close", "controller-drop"] + (["unsolicited"] if uns else []), diff_sample=400, max_paths=3000000))
+    if tier != "canary":
+        # the encrypted protocol underneath: a completely delivered frame is handed on whatever the read boundaries (unit of C05)
+        from . import c05
+        units.append(Unit("secure-framing/F=1,R=2 (unit of C05)", c05.inbound(c05.copies(mutate), 1, 2, None), c05.inbound(c05.real_conn, 1, 2, None), split=True,
+                          bounds={"frames": 1, "reads": 2, "plaintext_len": "0..1024 (symbolic)", "cut": "all positions (symbolic)"}, regions=["interior-cut"]))
     return units
 
 
